@@ -140,6 +140,8 @@ def part_purefock(ctx, pq, conns, quick, rng):
                             ok = False
             if ok:
                 ctx.validated()
+                if idx:
+                    ctx.sample({"input": inp, "gates": name, "connectors": sorted(conns), "exact_amplitudes": {str(k): [round(v.real, 9), round(v.imag, 9)] for k, v in list(amps.items())[:4]}}, limit=3)
 
 
 def small_active_gate(pq, rng, d):
@@ -211,11 +213,24 @@ def part_gaussian(ctx, pq, conns, quick, rng):
     if "jax" not in conns:
         return
     counters = ctx.notes.setdefault("gaussian", {"states": 0})
-    d = 2
-    gates = L.gaussian_catalogue(d, rng=rng, size=7 if quick else 12)
-    recs = GR.explore(ctx, d, gates, 2 if quick else 3)
-    if quick and len(recs) > 40:
-        recs = rng.sample(recs, 40)
+    for d in (2, 3):
+        part_gaussian_d(ctx, pq, conns, quick, rng, d, counters)
+
+
+def part_gaussian_d(ctx, pq, conns, quick, rng, d, counters):
+    if d == 2:
+        gates = L.gaussian_catalogue(d, rng=rng, size=7 if quick else 12)
+        depth = 2 if quick else 3
+    else:
+        # three modes, depth 3: an active gate followed by passive gates on overlapping pairs (correlated spectator modes)
+        cat = L.gaussian_catalogue(d)
+        act = [g for g in cat if not g["passive"] and not g.get("chan") and not g["name"].startswith(("Displacement", "PositionDisplacement", "MomentumDisplacement"))]
+        pas = [g for g in cat if g["passive"] and len(g["modes"]) == 2]
+        gates = rng.sample(act, 1 if quick else 3) + rng.sample(pas, 3 if quick else 5)
+        depth = 3
+    recs = GR.explore(ctx, d, gates, depth)
+    if quick and len(recs) > 45:
+        recs = rng.sample(recs, 45)
     perm = GR.xxpp_to_xpxp_perm(d)
     for rec in recs:
         mu, Gam, reps, nbar = GR.decode(rec, d)
